@@ -9,6 +9,9 @@ def build(P):
     P.verify(E.SE + "StateEngine.broadcast_notification", R.broadcast_notification_contract(), tags=("C11",))
     P.verify(E.SE + "StateEngine.start_execution", R.start_execution_contract(), tags=("C11",))
     P.verify(E.SE + "StateEngine.end_execution", R.end_execution_contract(), tags=("C11",))
+    P.native("backstop-publishes-once", "natives.c02:expired_backstop", kind="bounded", clause="C11:",
+             bound="the two heartbeat back-stop scenarios of C02 (stuck fan-out; one branch event lost for good) over three rounds: FAILED "
+                   "is published once and the terminal history event is appended once")
     P.explanation = ("broadcast_notification on its real body: exactly one broadcast, subject '<stateMachineArn>.<status>', "
                      "CloudWatch shape, start/stop dates in milliseconds in the message, the passed record restored field by "
                      "field (frame); start/end_execution: the record that is stored is the one notified, and the terminal history "
